@@ -5,25 +5,6 @@ From Verif Require Import Lib.SortX C08.Model C08.Spec C08.Proofs C08.Proofs_Dri
 Import ListNotations.
 Open Scope Z_scope.
 
-Lemma list_eqb_refl {A} (eqb : A -> A -> bool) (l : list A) :
-  (forall x, eqb x x = true) -> list_eqb eqb l l = true.
-Proof. intro H. induction l as [|x l IH]; [reflexivity|]. cbn. now rewrite H, IH. Qed.
-
-Lemma list_eqb_eq {A} (eqb : A -> A -> bool) (a b : list A) :
-  (forall x y, eqb x y = true -> x = y) -> list_eqb eqb a b = true -> a = b.
-Proof.
-  intro H. revert b. induction a as [|x a IH]; intros [|y b] E; try discriminate; [reflexivity|].
-  cbn in E. apply andb_prop in E. destruct E as [E1 E2]. f_equal; [now apply H|now apply IH].
-Qed.
-
-Lemma ovec_eqb_refl o : ovec_eqb o o = true.
-Proof. destruct o; [apply vec_eqb_refl|reflexivity]. Qed.
-
-Lemma ovec_eqb_eq a b : ovec_eqb a b = true -> a = b.
-Proof.
-  destruct a, b; cbn; try discriminate; [|reflexivity]. intro H. f_equal. now apply vec_eqb_eq.
-Qed.
-
 (* ------------------------------------------------------------------ one node *)
 Lemma gets_estimates n m :
   n_metric n = Some m ->
@@ -94,9 +75,29 @@ Proof.
   destruct (alookup (nd_name nd) c) as [n|]; cbn [spec_metric view_detail no_detail]; [|reflexivity].
   destruct (n_metric n) as [m|] eqn:Em; [|reflexivity].
   unfold filter_decide, variant_observed in *.
-  destruct (p_ds p); [reflexivity|].
+  destruct (daemonset p); [reflexivity|].
   destruct (select_thresholds (node_profile cfg nd) (is_prod p)) as [[[[thr isAgg] aggT] aggD] prodPod].
   destruct (vempty thr); [reflexivity|].
+  destruct (variant_index (prodPod, aggT, aggD) variants) as [i|] eqn:Ei; [|discriminate].
+  unfold view_get. rewrite Ei.
+  rewrite (variant_index_nth (get_est n) _ _ _ _ _ Ei). reflexivity.
+Qed.
+
+Lemma score_view_agrees cfg c nd p :
+  score_observed cfg p = true ->
+  existsb (Z.eqb (nd_name nd)) universe = true ->
+  score cfg c nd p
+  = score_decide cfg nd p
+      (view_state (spec_metric (alookup (nd_name nd) c))
+                  (nth (Nat.pred (Z.to_nat (nd_name nd))) (observe cfg c) None)).
+Proof.
+  intros Hv Hu. rewrite (observe_nth _ _ _ Hu).
+  unfold score, node_view, observe_node, view_state.
+  destruct (alookup (nd_name nd) c) as [n|]; cbn [spec_metric view_detail no_detail]; [|reflexivity].
+  destruct (n_metric n) as [m|] eqn:Em; [|reflexivity].
+  unfold score_decide, score_observed in *.
+  destruct (score_weights cfg); [|reflexivity].
+  destruct (score_variant cfg p) as [[prodPod aggT] aggD].
   destruct (variant_index (prodPod, aggT, aggD) variants) as [i|] eqn:Ei; [|discriminate].
   unfold view_get. rewrite Ei.
   rewrite (variant_index_nth (get_est n) _ _ _ _ _ Ei). reflexivity.
@@ -106,9 +107,12 @@ Lemma op_code_model cfg c o :
   op_code cfg c o (op_result cfg c o) (observe cfg (step cfg c o)) = 0.
 Proof.
   destruct o; cbn [op_code op_result step]; try reflexivity.
-  destruct (variant_observed cfg nd p && existsb (Z.eqb (nd_name nd)) universe) eqn:E; [|reflexivity].
-  apply andb_prop in E. destruct E as [E1 E2].
-  rewrite <- (filter_view_agrees cfg c nd p E1 E2). now rewrite Z.eqb_refl.
+  - destruct (variant_observed cfg nd p && existsb (Z.eqb (nd_name nd)) universe) eqn:E; [|reflexivity].
+    apply andb_prop in E. destruct E as [E1 E2].
+    rewrite <- (filter_view_agrees cfg c nd p E1 E2). now rewrite Z.eqb_refl.
+  - destruct (score_observed cfg p && existsb (Z.eqb (nd_name nd)) universe) eqn:E; [|reflexivity].
+    apply andb_prop in E. destruct E as [E1 E2].
+    rewrite <- (score_view_agrees cfg c nd p E1 E2). now rewrite Z.eqb_refl.
 Qed.
 
 (* ------------------------------------------------------------------ whole histories *)
@@ -156,12 +160,18 @@ Lemma op_code_sound cfg c o r view : op_code cfg c o r view = 0 -> op_ok cfg c o
 Proof.
   destruct o; cbn [op_code op_ok];
     try (destruct (r =? 0) eqn:E; [apply Z.eqb_eq in E; tauto|discriminate]).
-  intros H Hv Hu.
-  assert (Hu' : existsb (Z.eqb (nd_name nd)) universe = true).
-  { apply existsb_exists. exists (nd_name nd). split; [exact Hu|apply Z.eqb_refl]. }
-  rewrite Hv, Hu' in H. cbn [andb] in H.
-  match type of H with (if ?b then _ else _) = _ => destruct b eqn:E end; [|discriminate].
-  now apply Z.eqb_eq in E.
+  - intros H Hv Hu.
+    assert (Hu' : existsb (Z.eqb (nd_name nd)) universe = true).
+    { apply existsb_exists. exists (nd_name nd). split; [exact Hu|apply Z.eqb_refl]. }
+    rewrite Hv, Hu' in H. cbn [andb] in H.
+    match type of H with (if ?b then _ else _) = _ => destruct b eqn:E end; [|discriminate].
+    now apply Z.eqb_eq in E.
+  - intros H Hv Hu.
+    assert (Hu' : existsb (Z.eqb (nd_name nd)) universe = true).
+    { apply existsb_exists. exists (nd_name nd). split; [exact Hu|apply Z.eqb_refl]. }
+    rewrite Hv, Hu' in H. cbn [andb] in H.
+    match type of H with (if ?b then _ else _) = _ => destruct b eqn:E end; [|discriminate].
+    now apply Z.eqb_eq in E.
 Qed.
 
 Lemma code_from_sound cfg ops c obs : code_from cfg c ops obs = 0 -> holds_from cfg c ops obs.
@@ -202,11 +212,16 @@ Qed.
 Lemma op_code_complete cfg c o r view : op_ok cfg c o r view -> op_code cfg c o r view = 0.
 Proof.
   destruct o; cbn [op_code op_ok]; try (intros ->; reflexivity).
-  intro H.
-  destruct (variant_observed cfg nd p) eqn:Ev; cbn [andb]; [|reflexivity].
-  destruct (existsb (Z.eqb (nd_name nd)) universe) eqn:Eu; [|reflexivity].
-  apply existsb_exists in Eu. destruct Eu as (x & Hin & Hx). apply Z.eqb_eq in Hx. subst x.
-  rewrite <- (H eq_refl Hin). now rewrite Z.eqb_refl.
+  - intro H.
+    destruct (variant_observed cfg nd p) eqn:Ev; cbn [andb]; [|reflexivity].
+    destruct (existsb (Z.eqb (nd_name nd)) universe) eqn:Eu; [|reflexivity].
+    apply existsb_exists in Eu. destruct Eu as (x & Hin & Hx). apply Z.eqb_eq in Hx. subst x.
+    rewrite <- (H eq_refl Hin). now rewrite Z.eqb_refl.
+  - intro H.
+    destruct (score_observed cfg p) eqn:Ev; cbn [andb]; [|reflexivity].
+    destruct (existsb (Z.eqb (nd_name nd)) universe) eqn:Eu; [|reflexivity].
+    apply existsb_exists in Eu. destruct Eu as (x & Hin & Hx). apply Z.eqb_eq in Hx. subst x.
+    rewrite <- (H eq_refl Hin). now rewrite Z.eqb_refl.
 Qed.
 
 Lemma code_from_complete cfg ops c obs : holds_from cfg c ops obs -> code_from cfg c ops obs = 0.
